@@ -148,6 +148,8 @@ pub enum GoalKind {
     Distance,
     /// single layer goals for C20
     OnlyUnassigned,
+    /// min-unassigned with a job estimator which weighs jobs by their value (as the pragmatic reader does for breaks)
+    OnlyWeightedUnassigned,
     OnlyTours,
     OnlyDistance,
     OnlyValue,
@@ -176,6 +178,14 @@ pub fn build_goal(kind: GoalKind, transport: Arc<dyn TransportCost>) -> GoalCont
         // single-layer goals: the transport feature is always present as a constraint (its objective comes first or is
         // the only one); for the others the schedule keeper supplies the constraint without an objective
         GoalKind::OnlyUnassigned => vec![unassigned, tb("schedule").build_schedule_updater().unwrap(), capacity],
+        GoalKind::OnlyWeightedUnassigned => vec![
+            MinimizeUnassignedBuilder::new("min-unassigned")
+                .set_job_estimator(|_, job: &Job| 1. + job.dimens().get_value::<ValueKey, f64>().copied().unwrap_or(0.))
+                .build()
+                .unwrap(),
+            tb("schedule").build_schedule_updater().unwrap(),
+            capacity,
+        ],
         GoalKind::OnlyTours => vec![tours, tb("schedule").build_schedule_updater().unwrap(), capacity],
         GoalKind::OnlyDistance => vec![tb("min-distance").build_minimize_distance().unwrap(), capacity],
         GoalKind::OnlyValue => vec![value(), tb("schedule").build_schedule_updater().unwrap(), capacity],
